@@ -270,3 +270,29 @@ fn vk_c11_status_change_counted_on_every_set() {
     assert!(shell.last_exit_status_change_count() == n0 + 1, "C11.status.substitution_status_detected_even_when_equal_to_the_previous_one");
     std::mem::forget(shell);
 }
+
+fn brace_group() -> ast::Command { ast::Command::Compound(ast::CompoundCommand::BraceGroup(ast::BraceGroupCommand { list: ast::CompoundList(Vec::new()), loc: Default::default() }), None) }
+
+//@proof {'props': ['C11', 'C02'], 'tier': 'quick', 'timeout': 900, 'uses': ['pipewait'], 'bounds': 'a one-element pipeline whose element is a simple command or a brace group (symbolic), ending with any status; PIPESTATUS holding two statuses from an earlier pipeline', 'desc': 'PIPESTATUS: a simple command replaces it by its own status; a grouping command on its own (`{ a | b; }`, and likewise if / for / while / case) leaves the statuses of the last pipeline that ran inside it (bash: `{ (exit 3)|(exit 4); }; echo ${PIPESTATUS[@]}` prints 3 4)'}
+#[kani::proof]
+#[kani::unwind(5)]
+#[kani::stub(std::hash::RandomState::new, crate::vk_prelude::stub_random_state_new)]
+#[kani::stub(std::time::SystemTime::now, crate::vk_prelude::stub_now)]
+fn vk_c11_pipestatus_of_a_grouping_command() {
+    let mut shell: Sh = Shell::default();
+    shell.last_pipeline_statuses_mut().push(3); shell.last_pipeline_statuses_mut().push(4);
+    let params = ExecutionParameters::default();
+    let grouping: bool = kani::any();
+    let mut seq = Vec::with_capacity(1);
+    seq.push(if grouping { brace_group() } else { ast::Command::Simple(ast::SimpleCommand { prefix: None, word_or_name: None, suffix: None }) });
+    let p = ast::Pipeline { timed: None, bang: false, seq };
+    let q = MockQueue { left: 1 };
+    let mut o = WOracle { codes: [kani::any(), 0, 0], flows: [0; 3], next: 0, fg: 0 };
+    let r = vk_ok(t_pipewait(&p, q, &mut shell, &params, &mut o));
+    kani::cover!(grouping, "grouping_command");
+    assert!(u8::from(r.exit_code) == o.codes[0] && shell.last_exit_status() == o.codes[0], "C02.pipeline.status_and_dollar_question");
+    let ps = shell.last_pipeline_statuses();
+    if grouping { assert!(ps.len() == 2 && ps[0] == 3 && ps[1] == 4, "C11.pipestatus.a_grouping_command_keeps_the_statuses_recorded_inside_it"); }
+    else { assert!(ps.len() == 1 && ps[0] == o.codes[0], "C11.pipestatus.a_simple_command_sets_its_own_status"); }
+    std::mem::forget(p); std::mem::forget(shell); std::mem::forget(params);
+}
